@@ -13,7 +13,7 @@ import ledger_scen  # noqa: E402
 
 PROP_FILE = "Props/C20.v"
 THEOREMS = ["C20_no_accumulation", "C20_released_owns_nothing", "C20_exits_release", "C20_abstraction_sound", "C20_structure",
-            "C20_forced_shutdown_ends_the_feeder_thread"]
+            "C20_forced_shutdown_ends_the_feeder_thread", "C20_collected_executor_reaches_the_manager"]
 ASSUME = [
     "an object that no thread, no registry and no user reference reaches is collected, and its descriptors / semaphores go with it "
     "(CPython reference counting + gc; measured, not proved)",
@@ -21,9 +21,9 @@ ASSUME = [
     "multiprocessing keeps un-joined Process objects in its child table and drops the reaped ones at the next Process.start()",
     "counts are taken after the feeder thread, which is told to stop but not joined in the creating process, has ended",
 ]
-ALL = ["plain", "with", "nowait", "kill", "broken_exit", "broken_kill", "timeout", "gc", "never_started", "errors",
+ALL = ["plain", "with", "nowait", "kill", "broken_exit", "broken_kill", "timeout", "gc", "gc_contended", "never_started", "errors",
        "reusable_resize", "reusable_broken", "reusable_timeout", "nested", "nested_kill", "kill_bigargs", "broken_bigargs", "bad_initargs"]
-QUICK = ["plain", "nowait", "kill", "kill_bigargs", "broken_bigargs", "bad_initargs", "nested_kill", "broken_exit", "gc", "never_started", "reusable_resize", "reusable_broken"]
+QUICK = ["plain", "nowait", "kill", "kill_bigargs", "broken_bigargs", "bad_initargs", "nested_kill", "broken_exit", "gc", "gc_contended", "never_started", "reusable_resize", "reusable_broken"]
 
 
 def model_ledgers(hists, psutil):
@@ -40,7 +40,7 @@ def model_ledgers(hists, psutil):
 
 
 def run(ctx):
-    pr = vlib.prove(ctx, PROP_FILE, ["Ledger"])
+    pr = vlib.prove(ctx, PROP_FILE, ["Ledger", "Pool"])
     fails = []
     # (a) the model's ledger against measured counts at observation points of real life cycles
     tres = runner.run_script(ledger_scen.SCRIPT, vlib.REPO, timeout=300, args=("--trace",), spare_trackers=True)
